@@ -4,20 +4,22 @@ from common_cfg import COMMON_TRUSTED
 CFG = dict(
     harness="c02",
     translators=["tr-ops"],
-    model_targets=["Num/Cases.vo", "Num/ConstRound.vo"],
+    model_targets=["Num/Cases.vo", "Num/ConstRound.vo", "Num/FloatCases.vo"],
     proof_targets=["Props/C02.vo"],
     props="Props/C02.v",
     harness_timeout=3000,
     trusted=COMMON_TRUSTED + [
         "translator tr-ops (interp/op.go, run.go neg/pos/bitNot/not/convert, value.go extractors -> coq/gen/OpTable_gen.v); it refuses closure shapes it does not understand and has a mutation self-test (vh tr-ops -selftest)",
+        "modelling assumptions of Num/FloatModel.v: Value.Float() widens a float32 exactly, SetFloat / Convert on a float32 slot round the float64 to nearest even (reflect), float64 arithmetic of the host is IEEE-754 binary64 round-to-nearest-even -- validated on every run by the float cases evaluated in Coq",
         "modelling assumptions of Num/OpDsl.v: reflect.Value.SetInt/SetUint/Convert on an integer slot store the value wrapped to the slot's width; Value.Int()/Uint() read the full value; int, uint, uintptr are 64 bits (linux/amd64) -- validated on every run by the complete enumeration",
         "native oracle of the harness (typed Go arithmetic in the compiled harness binary), compared with `go build` of the same generated programs on a rotating 1/8 shard (quick) or on all programs (thorough)",
     ],
-    level_text="Coq theorems for ALL operand values of the integer kinds (int8..int64, int, uint8..uint64, uint, uintptr), booleans and strings: every integer row of the operator table regenerated from interp/op.go on every run (88 binary, 44 op=, 22 fold, 84 comparison, 4 ++/--, 8 unary rows) denotes Go's operator at its kind (wrap-around, truncated division, x / -1, division by zero, shifts with counts of any integer kind >= 0, comparisons, negation, complement, ++/--, integer conversions); refutation witnesses for negative shift counts and for ++/-- on uintptr. The table is tied to the source by exact equality with a hand-written model table, function by function. Floating point and complex operators are tied structurally and decided by a complete enumeration (operator x kind x operand form x result context x boundary values, about 2.1 million evaluations per run) of real yaegi against compiled Go: validated, not proved.",
-    level_note="Trusted: Coq kernel + vm_compute, no axioms; translator tr-ops; harness and its native oracle (cross-checked against go build); reflect's typed Set*/Convert modelled as wrap. Floats/complex: enumeration only.",
-    technique="Coq proof (modular arithmetic, generic normal-form lemmas + finite table check by vm_compute) over a table regenerated from the source + complete enumeration against compiled Go",
+    level_text="Coq theorems for ALL operand values of the integer kinds (int8..int64, int, uint8..uint64, uint, uintptr), booleans and strings: every integer row of the operator table regenerated from interp/op.go on every run (88 binary, 44 op=, 22 fold, 84 comparison, 4 ++/--, 8 unary rows) denotes Go's operator at its kind (wrap-around, truncated division, x / -1, division by zero, shifts with counts of any integer kind >= 0, comparisons, negation, complement, ++/--, integer conversions); refutation witnesses for negative shift counts and for ++/-- on uintptr. The table is tied to the source by exact equality with a hand-written model table, function by function. Floating point (float32, float64): every float row of the regenerated table (76 rows: + - * /, op=, constant folds, ++ --, unary -, the six comparisons in value and branch form) is given a denotation with Flocq (operands read as float64, computed in binary64, SetFloat/Convert round to the slot's format) and proved equal to Go's IEEE-754 operation of the kind's own format for ALL operand bit patterns, at float64 and -- through Flocq's theory of innocuous double rounding connected to the Binary-level operations (signed zeros, subnormals, infinities, NaN, overflow of the second rounding included) -- at float32; float<->float conversions full, float->integer where Go defines the result, integer->float64 full, integer->float32 refuted (reflect.Convert rounds twice; confirmed on real yaegi vs compiled Go). The denotation is tied to the real code by about 15,000 (form, kind, operand bit patterns) cases per run observed on yaegi and on compiled Go and evaluated inside Coq (vm_compute) against Y_float and G_float. Complex operators, and the statement contexts of float operators, are decided by the complete enumeration (about 2.1 million evaluations per run) of real yaegi against compiled Go: validated, not proved.",
+    level_note="Trusted: Coq kernel + vm_compute; integer/bool/string theorems need no axioms, every theorem that mentions Flocq's Binary operations reports the four axioms of Coq's classical real numbers (sig_not_dec, sig_forall_dec, functional_extensionality_dep, classic) through Flocq; translator tr-ops; harness and its native oracle (cross-checked against go build); reflect's typed Set*/Convert modelled as wrap (integers) and as IEEE rounding to the slot's format (floats), validated on every run. Complex: enumeration only.",
+    technique="Coq proof (modular arithmetic; IEEE-754 with Flocq incl. innocuous double rounding; generic normal-form lemmas + finite table check by vm_compute) over a table regenerated from the source + cases evaluated in Coq + complete enumeration against compiled Go",
     assumptions=["int/uint/uintptr are 64 bits wide (the platform of the check)",
-                 "floating point and complex semantics are validated by enumeration against compiled Go, not proved",
+                 "NaN payloads are not modelled (results are compared after canonicalising NaN); float results are compared as bit patterns",
+                 "complex semantics are validated by enumeration against compiled Go, not proved",
                  "the go/constant folding branches of the *Const functions are tied textually only (constant expressions are C03's subject)"],
 )
 CFG["id"] = "C02"
